@@ -26,8 +26,11 @@ def _text(n):
 
 
 def _canon(t):
-    # NAME[<i>] -> <NAME[i]>
-    return re.sub(r"([A-Za-z_][\w.]*)\[<i>\]", r"<\1[i]>", t)
+    # NAME[<i>] -> <NAME[i]> ;  NAME[<i>+k] / NAME[k+<i>] -> <NAME[k+i]>
+    t = re.sub(r"([A-Za-z_][\w.]*)\[<i>\]", r"<\1[i]>", t)
+    t = re.sub(r"([A-Za-z_][\w.]*)\[<i>\+(\d+)\]", r"<\1[\2+i]>", t)
+    t = re.sub(r"([A-Za-z_][\w.]*)\[(\d+)\+<i>\]", r"<\1[\2+i]>", t)
+    return t
 
 
 def subst(e, env):
@@ -88,9 +91,14 @@ def element(fnode, it, env=None):
         return value(it.elt, env2)
     if isinstance(it, (ast.Attribute, ast.Name)):
         return "<%s[i]>" % _text(it)
-    if isinstance(it, ast.Subscript) and isinstance(it.slice, ast.Slice) and it.slice.step is None and it.slice.upper is None and it.slice.lower is not None:
-        # X[k:] : element i is X[k+i]; written <X[k+i]>
-        return "<%s[%s+i]>" % (_text(it.value), _text(it.slice.lower))
+    if isinstance(it, ast.Subscript) and isinstance(it.slice, ast.Slice) and it.slice.step is None:
+        # X[k:], X[k:u] : element i is X[k+i]; X[:u] : element i is X[i] (where the slice ends is
+        # the caller's business, as for range)
+        lo = it.slice.lower
+        if lo is None or (isinstance(lo, ast.Constant) and lo.value == 0):
+            return "<%s[i]>" % _text(it.value)
+        if isinstance(lo, ast.Constant) and isinstance(lo.value, int) and lo.value > 0 or not isinstance(lo, ast.Constant):
+            return "<%s[%s+i]>" % (_text(it.value), _text(lo))
     raise NoElement(_text(it)[:80])
 
 
